@@ -1941,3 +1941,19 @@ package otto
 //@   invariant@1 int(length) <= $i + 1 && seen != nil
 //@   invariant@1 forall j int :: 0 <= j && j < int(length) ==> has(seen, propertyList[j])
 //@   at_call strings.Repeat : 0 <= arg1 && arg1 <= 10
+
+// The four relational operators map to the abstract relational comparison of 11.8.5 with
+// the operand order and LeftFirst flag of 11.8.1-11.8.4: a < b is (a, b, true); a > b is
+// (b, a, false); a <= b is (b, a, false) negated; a >= b is (a, b, true) negated.  The flag
+// decides whose ToPrimitive (valueOf/toString, observable) runs first.  (The result tables
+// are package-level maps and are not specified here.)
+//@ func (*runtime).calculateComparison
+//@   props C05
+//@   nosafety
+//@   requires rt != nil && jsValue(left) && jsValue(right) && left.kind != valueReference && right.kind != valueReference
+//@   abstract_callee (Value).float64, (Value).string, (Value).bool
+//@   at_call calculateLessThan : comparator == token.LESS ==> arg0 == left && arg1 == right && arg2
+//@   at_call calculateLessThan : comparator == token.GREATER ==> arg0 == right && arg1 == left && !arg2
+//@   at_call calculateLessThan : comparator == token.LESS_OR_EQUAL ==> arg0 == right && arg1 == left && !arg2
+//@   at_call calculateLessThan : comparator == token.GREATER_OR_EQUAL ==> arg0 == left && arg1 == right && arg2
+//@   calls calculateLessThan(_, _, _) when comparator == token.LESS || comparator == token.GREATER || comparator == token.LESS_OR_EQUAL || comparator == token.GREATER_OR_EQUAL
